@@ -797,17 +797,25 @@ def gen_target(r, kind=None) -> dict:
 # are opaque to the model (they cannot raise inside a subroutine body: the generated recipes never raise)
 
 HISTORY_KINDS = ["nothing", "objects", "compiled-ok", "fail-build", "fail-version", "fail-overflow", "raise-fp",
-                 "raise-scratch", "probe", "router", "fail-late", "mixed"]
-QUICK_HISTORIES = ["nothing", "compiled-ok", "fail-version", "fail-overflow", "raise-fp", "router"]
+                 "raise-scratch", "probe", "router", "fail-late", "mixed", "twin"]
+QUICK_HISTORIES = ["nothing", "compiled-ok", "fail-version", "fail-overflow", "raise-fp", "router", "twin"]
 HBASE = 500  # names of history objects (targets use names below 100)
 
 
-def gen_history(r, kind) -> list[dict]:
+def gen_history(r, kind, target=None) -> list[dict]:
     H = HBASE
     acts: list[dict] = []
     op = lambda w: acts.append({"op": w})  # noqa: E731
     if kind == "nothing":
         return acts
+    if kind == "twin":
+        # an unrelated program that LOOKS like the target: same routine names and signatures, other bodies
+        # (anything cached per name / signature / source position instead of per object shows up here)
+        if target is not None and "descs" in target:
+            twins = [dict(d, k=d["k"] + 17, vars=(d["vars"] + 1) % 3, locals=(d["locals"] + 2) % 3) for d in target["descs"]]
+            acts.append({"opaque": "router", "descs": twins, "versions": [6, 8, r.choice([8, 9, 10])]})
+            return acts
+        kind = "compiled-ok"
     if kind in ("objects", "compiled-ok", "mixed"):
         for i in range(r.randrange(1, 40)):
             c = r.random()
@@ -1281,7 +1289,7 @@ def _part_b_wave(rep: Report, P, targets: dict, hist_kinds, hashseeds, n_fresh_t
     jobs, meta = [], []
     for ti, t in targets.items():
         for hk in hist_kinds:
-            h = gen_history(rng(f"C11/history/{ti}/{hk}"), hk)
+            h = gen_history(rng(f"C11/history/{ti}/{hk}"), hk, t)
             hi = hist_kinds.index(hk)
             # every target meets every history and every hash seed; with `per_pair` < len(hashseeds) each
             # (target, history) pair runs under a rotating subset of the hash seeds
